@@ -1301,16 +1301,16 @@ for _pid, _part, _note in (
 
 # end-to-end response integrity over the composition (coq/ChainResp*.v): C01 and C08 get the compose part too
 RESP_NOTE = (
-    " END-TO-END over the composition (part compose, coq/ChainResp*.v; monitor ChainRespSpec.c01c_ok on every real "
-    "chain trace): proved for every depth and op list - C01_chain_value_provenance (a head call resolving Ok v means a "
-    "node-0 handler finished with v, and a non-leaf handler finishing Ok v means a handler of the next node did: v is "
-    "a leaf's value; no hypothesis), C08_chain_yield_written (a yielded request was written into that link with that id "
-    "and body; incarnation numbers count yields), C08_chain_start_once (a handler starts only for a yielded request, at "
-    "most once), C08_chain_yield_once (an id is yielded at most once per link, untainted runs, chain_no_wrap), "
-    "C01_chain_once (no head call resolves twice or after it was dropped: every state, no hypothesis; rests on the "
-    "all-states client invariant ClientWaiters.winv_step: permit waiters are distinct calls still acquiring), "
-    "C01_chain_resp_but_body (the five flags together). Checked on every real trace only, not proved: the producing "
-    "handler served the caller's own request (rm_body; C01_chain_resp_of_body reduces the whole monitor to it).")
+    " END-TO-END over the composition (part compose, coq/ChainResp*.v, ChainIds.v; monitor ChainRespSpec.c01c_ok, also "
+    "evaluated on every real chain trace): C01_chain_resp - for EVERY depth and every op list of fewer than 2^64 - 1 "
+    "ops the response-integrity monitor accepts the run of the composition: a head call resolving Ok v means a node-0 "
+    "handler that served THAT call's request finished with v, a non-leaf handler finishing Ok v means a handler of the "
+    "next node serving its nested call's request did (so v is the leaf's value for that very request: "
+    "C01_chain_value_provenance, C01_chain_body), no head call resolves twice or after it was dropped (C01_chain_once: "
+    "every state, no hypothesis; rests on the all-states client invariant ClientWaiters.winv_step), a yielded request "
+    "was written into that link with that id and body and incarnation numbers count yields (C08_chain_yield_written), "
+    "a handler starts only for a yielded request and at most once (C08_chain_start_once), an id is yielded at most "
+    "once per link (C08_chain_yield_once; untainted runs).")
 for _pid in ("C01", "C08"):
     _sp = SPECS[_pid]
     _sp["parts"] = (_sp.get("parts") or [{}]) + [chain_part(
